@@ -42,7 +42,8 @@ def run_one(m, repo, prop_override=None):
         out = pr.stdout
         if 'load/type errors' in out or 'load error' in pr.stderr:
             return dict(name=m['name'], outcome='invalid', detail=(pr.stderr or out)[-400:])
-        rules = m['rule'] if isinstance(m['rule'], list) else [m['rule']]
+        rule = m.get('also', {}).get(prop, m['rule']) if isinstance(m.get('also'), dict) else m['rule']
+        rules = rule if isinstance(rule, list) else [rule]
         hit = [l for l in out.splitlines() if l.startswith('violation:') and any(('rule=' + r + ' ') in l for r in rules)]
         if pr.returncode == 1 and hit:
             return dict(name=m['name'], outcome='detected', detail=hit[0][:300])
